@@ -4,6 +4,7 @@ ORIGIN (symbolic evaluation of the search window / split position), MUSTPASS (re
 persistence of buffers, sender delimiter placement.  Decides the framing loops' dataflow facts on every path;
 does not decide concrete chunkings or the TLS/SSH record layers.
 """
+import os
 from vlib import facts as F, thir as T
 from vlib.report import loc_of
 from . import transport_common as TC
@@ -34,53 +35,8 @@ def run(ctx):
     recv = TC.stream_receivers(fx)
     for kind, b in sorted(recv.items()):
         stream_receiver_paths(chk, fx, kind, b, mlen)
-    pump(chk, fx, TC.ssh_pump(fx), mlen)
+    pump_paths(chk, fx, TC.ssh_pump(fx), mlen)
     sender(chk, fx)
-
-
-def haystack_start(b, sym, find):
-    """('whole',) or ('from', operand-of-start) or ('unknown', why) for the haystack argument of find."""
-    l = F.op_base(find.args[1])
-    seen = 0
-    while l is not None and seen < 12:
-        seen += 1
-        if b.local_ty(l) == "bytes::BytesMut":
-            return ("buffer", {"l": l}), None
-        defs = [d for d in b.defs().get(l, []) if not b.blocks[d[0]].get("cleanup")]
-        if len(defs) != 1:
-            return ("unknown", "haystack has %d definitions" % len(defs)), None
-        (bi, si, kind, payload) = defs[0]
-        if kind == "assign":
-            rv = payload["rv"]
-            if rv["k"] == "ref":
-                pl = rv["pl"]
-                if [p for p in (pl.get("p") or []) if p != "*"]:
-                    return ("buffer", pl), None
-                l = pl["l"]
-                continue
-            if rv["k"] == "use" and rv["op"].get("c") != "const":
-                l = rv["op"]["pl"]["l"]
-                continue
-            return ("unknown", "haystack defined by %s" % rv["k"]), None
-        if kind == "call":
-            c = [x for x in b.calls() if x.bb == bi][0]
-            if c.is_fn("Deref::deref", "AsRef::as_ref", "Borrow::borrow"):
-                l = F.op_base(c.args[0])
-                continue
-            if c.is_fn("Index::index"):
-                rng = sym.of_operand(c.args[1])
-                if rng[0] == "agg" and rng[1].endswith("RangeFrom"):
-                    idx_l = None
-                    # the RangeFrom aggregate's field operand
-                    (abi, asi, akind, ap) = [d for d in b.defs()[F.op_base(c.args[1])] if d[2] == "assign"][0]
-                    start_op = ap["rv"]["fields"][0]
-                    return ("from", start_op), c
-                if rng[0] == "agg" and rng[1].endswith("RangeFull"):
-                    l = F.op_base(c.args[0])
-                    continue
-                return ("unknown", "indexed with %s" % (rng,)), c
-            return ("unknown", "haystack produced by %s" % c.name()), c
-    return ("unknown", "origin chain too long"), None
 
 
 REVERSE = ("memmem::FinderRev::<'n>::rfind", "memmem::rfind", "memmem::rfind_iter", "memmem::FinderRev::<'n>::rfind_iter", "str::<impl str>::rfind",
@@ -100,31 +56,6 @@ def _last_occurrence_search(chk, fx, fn, b):
                      key="C06/R2 %s last-occurrence-search" % fn,
                      detail="%s looks for the last occurrence: with two messages buffered the split is after the second one" % c.name())
     return bool(rev)
-
-
-def rooted_in_self(b, l):
-    """local l is a reference to a field place rooted at the coroutine's captured self."""
-    if l is None:
-        return False
-    origins, visited = b.backward_slice(l, through_call=lambda c: c.is_fn("Deref::deref", "DerefMut::deref_mut"))
-    fields = [o for o in origins if o["k"] == "place"]
-    calls = [o for o in origins if o["k"] == "call"]
-    return bool(fields) and not calls and 1 in visited
-
-
-def window_ok(e, mlen):
-    if e == ("const", 0):
-        return True, "start of buffer"
-    if e[0] in ("satsub", "sub") and e[1] == ("buflen",):
-        k = TC.fold(e[2], mlen)
-        if k is None:
-            return False, "back-off is not a constant"
-        if k >= mlen - 1:
-            return True, "buf.len() - %d" % k
-        return False, "back-off %d < MARKER.len()-1 = %d" % (k, mlen - 1)
-    if e == ("buflen",):
-        return False, "search resumes at the end of the data already searched: a delimiter split across reads is never found"
-    return False, "unrecognised form"
 
 
 def render(e):
@@ -147,95 +78,142 @@ def render(e):
     return k
 
 
-def _is_buffer_param(body, find):
-    """The haystack of `find` is (a reborrow of) a `&mut BytesMut` / `&BytesMut` parameter of a helper."""
-    o, vis = body.backward_slice(F.op_base(find.args[1]), through_call=lambda c: c.is_fn("Deref::deref", "DerefMut::deref_mut", "AsRef::as_ref"))
-    argc = body.raw["arg_count"]
-    return any(1 <= v <= argc and "BytesMut" in body.local_ty(v) for v in vis)
-
-
-def pump(chk, fx, b, mlen):
-    chk.analysed(b.name)
+def pump_paths(chk, fx, b, mlen):
+    """The SSH pump decided on its explored paths (helpers — sync or async — inlined, every loop one iteration with its carried
+    variables symbolic).  R1: each search looks at the whole input buffer.  R2: the split position is index + MARKER.len().
+    R3: appended data is searched before the pump waits again; after a message was split off the buffer is searched again before the
+    pump waits (the loop the split sits in starts with the search); each split message is sent to the receiver.  R4: data is appended
+    to, searched in and split off one buffer that is not created inside the pump loop."""
+    from vlib import absint as A
+    _FX[0] = fx
     fn = "transport::ssh pump"
+    chk.analysed(b.name)
     if _last_occurrence_search(chk, fx, fn, b):
         return
-    sym = TC.Sym(b, mlen)
-    finds = b.calls_to("memmem::Finder::<'n>::find", user_only=True)
-    splits = b.calls_to("BytesMut::split_to", user_only=True)
-    waits = b.calls_to("russh::Channel::<S>::wait", user_only=True)
-    exts = b.calls_to("BytesMut::extend_from_slice", user_only=True)
-    # find + split may live in a private helper ("take one message off the buffer"): analyse the helper's body for R1/R2 and
-    # treat its call sites as search-and-split sites in the pump
-    helper_calls = []
-    for c in b.calls():
-        if c.macro:
+    n = [0]
+
+    def hook(f, args, node, interp):
+        s2 = T.short(f, 2)
+        if s2 in ("Finder::find", "memmem::find", "FinderRev::rfind") and len(args) >= 2:
+            n[0] += 1
+            interp.trace.append(("find", args[1], n[0], node.get("sp")))
+            return ("sym", "FOUND%d" % n[0])
+        if s2 == "BytesMut::split_to" and len(args) == 2:
+            interp.trace.append(("split", args[0], args[1], node.get("sp")))
+            return ("sym", "MESSAGE")
+        if s2 in ("BytesMut::extend_from_slice", "BufMut::put_slice", "BufMut::put", "Extend::extend") and args:
+            interp.trace.append(("extend", args[0], node.get("sp")))
+            return ("unit",)
+        if s2 == "Sender::send" and "mpsc" in f and len(args) == 2:
+            interp.trace.append(("send", args[1], node.get("sp")))
+            return ("term", "async-ready", (("sym", "SENT"),))
+        if s2 == "Channel::wait":
+            interp.trace.append(("wait", node.get("sp")))
+            return ("term", "async-ready", (("sym", "WAIT"),))
+        if s2 in ("BytesMut::new", "BytesMut::with_capacity"):
+            interp.trace.append(("newbuf", node.get("sp")))
+        if s2 in DISCARDING and args:
+            interp.trace.append(("discard", args[0], s2, node.get("sp")))
+        return None
+    paths = [p for p in A.Interp(fx, hook=hook, crates=("netconf",), max_paths=6000, havoc_loops=True).explore(b.name) if p.end != "abort"]
+    EV = ("find", "split", "extend", "send", "wait", "loop-enter", "iter-end", "loop-exit", "discard")
+    finds = [(p, e) for p in paths for e in p.trace if e[0] == "find"]
+    splits = [(p, e) for p in paths for e in p.trace if e[0] == "split"]
+    exts = [(p, e) for p in paths for e in p.trace if e[0] == "extend"]
+    waits = [(p, e) for p in paths for e in p.trace if e[0] == "wait"]
+    chk.floor("C06 ssh pump find/split/wait/extend sites (explored paths)", min(len(finds), len(splits), len(waits), len(exts)), 1)
+    chk.call_sites += len(finds) + len(splits) + len(exts)
+
+    def window(h):
+        if h[0] == "term" and T.short(h[1], 2) in ("Index::index",) and len(h[2]) == 2:
+            r = h[2][1]
+            if r[0] == "adt" and r[2] in ("RangeFrom",):
+                return dict(r[3]).get("start")
+            if r[0] == "adt" and r[2] in ("RangeFull",):
+                return A.lit(0)
+            return None
+        if h[0] == "term" and h[2] and T.short(h[1], 2) in ("Deref::deref", "AsRef::as_ref", "Borrow::borrow"):
+            return window(h[2][0])
+        return A.lit(0)
+
+    def sp_key(sp):
+        return ((sp or {}).get("f"), (sp or {}).get("l"), (sp or {}).get("c"))
+    # which loops start with a search: over all paths, the first of find / wait / extend after entering the loop is a find
+    first_in_loop = {}
+    for p in paths:
+        ev = [e for e in p.trace if e[0] in EV]
+        for i, e in enumerate(ev):
+            if e[0] != "loop-enter":
+                continue
+            nxt = [x[0] for x in ev[i + 1:] if x[0] in ("find", "wait", "extend")][:1]
+            if nxt:
+                first_in_loop.setdefault(sp_key(e[1]), set()).add(nxt[0])
+
+    def researched(p, e):
+        """Walking on from event e: is the buffer searched before the pump waits for more input?"""
+        ev = [x for x in p.trace if x[0] in EV]
+        for x in ev[ev.index(e) + 1:]:
+            if x[0] == "find":
+                return True
+            if x[0] == "wait":
+                return False
+            if x[0] == "iter-end":
+                return first_in_loop.get(sp_key(x[2])) == {"find"}
+        return p.end in ("return", "fallthrough")      # the pump ends (error exit)
+    seen = set()
+    for (p, e) in finds:
+        st = window(e[1])
+        w = _win(st, mlen) if st is not None else None
+        k = sp_key(e[3])
+        if k in seen:
             continue
-        hb = fx.mir.get(c.rdef) or fx.mir.get(c.defn)
-        if hb is None or hb.crate != "netconf" or hb is b:
-            continue
-        hf = hb.calls_to("memmem::Finder::<'n>::find", user_only=True)
-        hs_ = hb.calls_to("BytesMut::split_to", user_only=True)
-        if hf and hs_:
-            helper_calls.append((c, hb, hf, hs_))
-    chk.floor("C06 ssh pump find/split/wait/extend sites", min(len(finds) + len(helper_calls), len(splits) + len(helper_calls), len(waits), len(exts)), 1)
-    chk.call_sites += len(finds) + len(splits) + len(waits) + len(exts) + len(helper_calls)
-    for (body, sy, ff, ss) in [(b, sym, finds, splits)] + [(hb, TC.Sym(hb, mlen), hf, hs_) for (_, hb, hf, hs_) in helper_calls]:
-        if body is not b:
-            chk.analysed(body.name)
-        for f in ff:
-            hs, _ = haystack_start(body, sy, f)
-            whole = hs[0] == "buffer" or (hs[0] == "unknown" and _is_buffer_param(body, f))
-            chk.instance("C06/R1", "ssh pump: the whole input buffer is searched", body.name, f.loc(), holds=whole,
-                         key="C06/R1 %s partial-search" % fn)
-        for s in ss:
-            e = sy.of_operand(s.args[1])
-            terms = TC.add_terms(e)
-            consts = sum(t[1] for t in terms if t[0] == "const")
-            others = sorted(t for t in terms if t[0] != "const")
-            ok = consts == mlen and others == [("index",)]
-            chk.instance("C06/R2", "ssh pump: split position = index + MARKER.len() (got %s)" % render(e), body.name, s.loc(),
-                         holds=ok, key="C06/R2 %s split-position" % fn)
-    find_blocks = [f.bb for f in finds] + [c.bb for (c, _, _, _) in helper_calls]
-    for (c, hb, _, _) in helper_calls:
-        # the helper hands back Some(message) after a split: from that edge, the buffer must be searched again before waiting
-        none_t, some_t = b.switch_on(c.dest["l"], c.target) if c.target is not None else (None, None)
-        if some_t is None:
-            chk.instance("C06/R3", "ssh pump: result of %s is matched on Some/None" % T.short(hb.name, 1), b.name, c.loc(), holds=False,
-                         key="C06/R3 %s helper-result unrecognised form" % fn)
-            continue
-        reach = b.reachable(some_t, avoid=find_blocks)
-        bad = [w for w in waits if w.bb in reach]
-        chk.instance("C06/R3", "ssh pump: after %s returned a message the buffer is searched again before waiting for more input" % T.short(hb.name, 1),
-                     b.name, c.loc(), holds=not bad, key="C06/R3 %s wait-without-research" % fn,
-                     detail="a second message that arrived in the same packet would stay buffered until further traffic" if bad else None)
-    for s in splits:
-        reach = b.reachable_from_succs(s.bb, avoid=find_blocks)
-        bad = [w for w in waits if w.bb in reach]
-        chk.instance("C06/R3", "ssh pump: after splitting off a message the buffer is searched again before waiting for more input",
-                     b.name, s.loc(), holds=not bad, key="C06/R3 %s wait-without-research" % fn,
-                     detail="a second message that arrived in the same packet would stay buffered until further traffic" if bad else None)
-    for x in exts:
-        # after appending data, a search happens before the next wait
-        reach = b.reachable_from_succs(x.bb, avoid=find_blocks)
-        bad = [w for w in waits if w.bb in reach]
-        chk.instance("C06/R3", "ssh pump: appended data is searched before waiting again", b.name, x.loc(), holds=not bad,
-                     key="C06/R3 %s data-not-searched" % fn)
-    # R4: the input buffer outlives loop iterations
-    news = b.calls_to("bytes::BytesMut::new", "BytesMut::with_capacity", user_only=True)
-    loops = [b.natural_loop(h) for h in b.loop_heads()]
-    for n in news:
-        ok = not any(n.bb in lp for lp in loops)
-        chk.instance("C06/R4", "ssh pump: input buffer is created outside the pump loop", b.name, n.loc(), holds=ok,
-                     key="C06/R4 %s buffer-recreated-in-loop" % fn)
-    if not news:
-        raise F.AnchorLost("ssh pump: BytesMut::new not found")
-    # every message split off is forwarded (send result checked)
-    sends = b.calls_to("mpsc::Sender::<T>::send", user_only=True)
-    for s in splits + [c for (c, _, _, _) in helper_calls]:
-        t = b.forward_taint([s.dest["l"]], through_call=lambda c: c.is_fn("BytesMut::freeze"))
-        fwd = [x for x in sends if F.op_base(x.args[1]) in t]
-        chk.instance("C06/R3", "ssh pump: each split message is enqueued for the receiver", b.name, s.loc(), holds=bool(fwd),
+        seen.add(k)
+        chk.instance("C06/R1", "ssh pump: the whole input buffer is searched (explored paths)", b.name, loc_of(e[3]), holds=w == ("const", 0),
+                     key="C06/R1 %s partial-search" % fn, detail=None if w == ("const", 0) else A.vstr(e[1])[:80])
+    for (p, e) in splits:
+        prior = [x for x in p.trace[:p.trace.index(e)] if x[0] == "find"]
+        ok, detail = False, "no search before the split"
+        if prior:
+            f = prior[-1]
+            want = {"«FOUND%d»→Some.0" % f[2]: 1, "": mlen}
+            got = _lin(e[2], mlen)
+            ok = got == want and _win(window(f[1]) or ("?",), mlen) == ("const", 0)
+            detail = "split at %s" % A.vstr(e[2])[:80]
+        chk.instance("C06/R2", "ssh pump: split position = index + MARKER.len() (explored paths)", b.name, loc_of(e[3]), holds=ok, key="C06/R2 %s split-position" % fn,
+                     detail=detail)
+        good = researched(p, e)
+        chk.instance("C06/R3", "ssh pump: after splitting off a message the buffer is searched again before waiting for more input (explored paths)",
+                     b.name, loc_of(e[3]), holds=good, key="C06/R3 %s wait-without-research" % fn,
+                     detail=None if good else "a second message that arrived in the same packet would stay buffered until further traffic")
+        ev = [x for x in p.trace if x[0] in EV]
+        after = ev[ev.index(e) + 1:]
+        upto = next((i for i, x in enumerate(after) if x[0] in ("iter-end", "find", "wait")), len(after))
+        fwd = [x for x in after[:upto] if x[0] == "send" and A.mentions(x[1], lambda y: y == ("sym", "MESSAGE"))]
+        chk.instance("C06/R3", "ssh pump: each split message is enqueued for the receiver (explored paths)", b.name, loc_of(e[3]), holds=bool(fwd),
                      key="C06/R3 %s message-not-forwarded" % fn)
+    for (p, e) in exts:
+        good = researched(p, e)
+        chk.instance("C06/R3", "ssh pump: appended data is searched before waiting again (explored paths)", b.name, loc_of(e[2]), holds=good,
+                     key="C06/R3 %s data-not-searched" % fn)
+    roots = {_buffer_root(e[1])[0] for (_, e) in exts + splits + finds}
+    chk.instance("C06/R4", "ssh pump: data is appended to, searched in and split off one buffer (%s)" % sorted(roots), b.name, None, holds=len(roots) == 1,
+                 key="C06/R4 %s several-buffers" % fn)
+    fresh = []
+    for p in paths:
+        depth = 0
+        for e in p.trace:
+            if e[0] == "loop-enter":
+                depth += 1
+            elif e[0] == "newbuf" and depth > 0:
+                fresh.append(e)
+    chk.instance("C06/R4", "ssh pump: the input buffer is created outside the pump loop (explored paths)", b.name, loc_of(fresh[0][1]) if fresh else None, holds=not fresh,
+                 key="C06/R4 %s buffer-recreated-in-loop" % fn)
+    if not any(e[0] == "newbuf" for p in paths for e in p.trace):
+        raise F.AnchorLost("ssh pump: creation of the input buffer not found")
+    discards = [(p, e) for p in paths for e in p.trace if e[0] == "discard" and _buffer_root(e[1])[0] in roots]
+    for (p, e) in discards[:3]:
+        chk.instance("C06/R4", "ssh pump: the input buffer is shortened only by split_to(end of message)", b.name, loc_of(e[3]), holds=False,
+                     key="C06/R4 %s buffer-discarded-by %s" % (fn, e[2]), detail="bytes after the delimiter (the next message, or its head) are lost")
 
 
 def sender(chk, fx):
@@ -347,6 +325,30 @@ def _buffer_root(v):
     return txt, (v[0] == "field" and "self" in A.vstr(v[1]))
 
 
+def _win(v, mlen):
+    """Normal form of a window-start expression over naturals: ("const", n) | ("var", X, k) = X ∸ k for a loop-carried X |
+    ("len", buffer root, k) = buffer.len() ∸ k | None.  (a ∸ j) ∸ k = a ∸ (j + k) holds for saturating subtraction."""
+    from vlib import absint as A
+    if v == A.lit(0) or (v[0] == "lit" and isinstance(v[1], int)):
+        return ("const", v[1])
+    if v[0] == "sym" and v[1].startswith("loop:"):
+        return ("var", v[1][5:], 0)
+    if v[0] == "term" and T.short(v[1], 2) in ("BytesMut::len", "Vec::len", "slice::len") and v[2] and "MARKER" not in A.vstr(v):
+        return ("len", _buffer_root(v[2][0])[0], 0)
+    if v[0] == "term" and T.short(v[1], 2) in ("num::saturating_sub", "usize::saturating_sub") and len(v[2]) == 2:
+        kk = _lin(v[2][1], mlen)
+        if not set(kk) <= {""} or kk.get("", 0) < 0:
+            return None
+        k = kk.get("", 0)
+        a = _win(v[2][0], mlen)
+        if a is None:
+            return None
+        if a[0] == "const":
+            return ("const", max(a[1] - k, 0))
+        return (a[0], a[1], a[2] + k)
+    return None
+
+
 def stream_receiver_paths(chk, fx, kind, b, mlen):
     from vlib import absint as A
     _FX[0] = fx
@@ -429,41 +431,42 @@ def stream_receiver_paths(chk, fx, kind, b, mlen):
                      detail=detail)
     # R1: the window start is 0 when recv is entered and, when carried round the loop, buf.len() minus at least MARKER.len()-1,
     # computed before the read
-    carried = set()
+    carried = {}
     for (p, e) in finds:
         st = window(e[1])
         if st is None:
             chk.instance("C06/R1", "%s: haystack of find has an unrecognised form" % kind, b.name, loc_of(e[3]), holds=False, key="C06/R1 %s unrecognised-haystack" % fn,
                          detail=A.vstr(e[1])[:100])
             continue
-        if st == A.lit(0):
+        w = _win(st, mlen)
+        if w == ("const", 0):
             chk.instance("C06/R1", "%s: whole receive buffer searched" % kind, b.name, loc_of(e[3]), holds=True)
             continue
-        if st[0] == "sym" and st[1].startswith("loop:"):
-            carried.add(st[1][5:])
+        if w is not None and w[0] == "var":
+            # start = X ∸ k with X carried round the loop: what X is given decides (below)
+            carried[w[1]] = min(w[2], carried.get(w[1], w[2]))
             continue
         in_self = st[0] == "field" and "self" in A.vstr(st[1])
         chk.instance("C06/R1", "%s: search window starts at a per-call offset (not at %s)" % (kind, A.vstr(st)[:50]), b.name, loc_of(e[3]), holds=False,
                      key="C06/R1 %s search-window-start %s" % (fn, "kept-in-the-handle" if in_self else A.vstr(st)[:40]),
                      detail="an offset that outlives the call points past bytes the next call has not searched" if in_self else None)
-    for var in sorted(carried):
-        first = [window(e[1]) for p in explore(False) for e in p.trace if e[0] == "find"][:1]
-        chk.instance("C06/R1", "%s: the search offset `%s` is 0 when recv is entered" % (kind, var), b.name, None, holds=first == [A.lit(0)],
-                     key="C06/R1 %s search-window-start initial" % fn, detail=A.vstr(first[0])[:60] if first and first[0] is not None else None)
+    for var, k1 in sorted(carried.items()):
+        first = [_win(window(e[1]), mlen) if window(e[1]) is not None else None for p in explore(False) for e in p.trace if e[0] == "find"][:1]
+        chk.instance("C06/R1", "%s: the search offset `%s` is 0 when recv is entered" % (kind, var), b.name, None, holds=first == [("const", 0)],
+                     key="C06/R1 %s search-window-start initial" % fn, detail=str(first[0])[:60] if first and first[0] is not None else None)
         for p in paths:
             asg = [a for a in p.assigns(var)]
             rd = [e for e in p.trace if e[0] == "read"]
             for a in asg:
                 v = a[2]
                 good, why = False, A.vstr(v)[:80]
-                if v == A.lit(0):
+                w = _win(v, mlen)
+                if w is not None and w[0] == "const" and w[1] - k1 <= 0:
                     good = True
-                elif v[0] == "term" and T.short(v[1], 2) in ("num::saturating_sub", "usize::saturating_sub") and len(v[2]) == 2:
-                    ln, k = v[2]
-                    kk = _lin(k, mlen)
-                    is_len = ln[0] == "term" and T.short(ln[1], 2) in ("BytesMut::len", "Vec::len", "slice::len") and _buffer_root(ln[2][0])[0] in roots
-                    good = is_len and set(kk) <= {""} and kk.get("", 0) >= mlen - 1
-                    why = "buf.len() - %s" % kk.get("", "?")
+                elif w is not None and w[0] == "len":
+                    # the window starts at buf.len() ∸ (what is taken off here + what the search site takes off)
+                    good = w[1] in roots and w[2] + k1 >= mlen - 1
+                    why = "buf.len() - %s" % (w[2] + k1)
                 chk.instance("C06/R1", "%s: search window start %s keeps a split delimiter visible" % (kind, why), b.name, loc_of(a[3]), holds=good,
                              key="C06/R1 %s search-window-start %s" % (fn, why))
                 # computed from the length before the read
